@@ -27,7 +27,7 @@ import ast
 import builtins
 import itertools
 
-from .model import AnalysisError, Model, ClassInfo
+from .model import AnalysisError, Model, ClassInfo, Module
 
 
 def find_method(cls, name):
@@ -299,6 +299,21 @@ def assigned_names(stmts):
             if isinstance(n, ast.Name) and isinstance(n.ctx, (ast.Store, ast.Del)):
                 out.add(n.id)
     return out
+
+
+class _ModuleContext(object):
+    """name-resolution context of a module-level function (stands in for the defining class)"""
+    def __init__(self, mod):
+        self.mod = mod
+        self.methods = {}
+        self.name = '<module %s>' % mod.rel
+        self.qname = self.name
+
+    def mro(self):
+        return []
+
+    def find_method(self, name):
+        return None
 
 
 class Enum:
@@ -677,6 +692,13 @@ class Enum:
             self.notes.add('super().%s unresolved' % name)
             return [(self.tok(st, ('UNRESOLVED', 'super.' + name)), opq)]
         # child.encode(x, stream) / child.decode(stream) / group.encode_addition_group(data, stream)
+        if has_stream and isinstance(call.func, ast.Attribute) and isinstance(call.func.value, (ast.Name, ast.Attribute)):
+            # module.function(.., stream): a helper of another module of the package
+            owner = self.defcls.mod.resolve(call.func.value)
+            if isinstance(owner, Module):
+                r = owner.resolve_name(name)
+                if isinstance(r, ast.FunctionDef):
+                    return self.inline_fn(self.defcls, r, pos, kws, st, skip_self=False)
         if has_stream:
             if name in ('encode', 'decode', 'encode_addition_group'):
                 return [(self.tok(st, ('CHILD',)), OPQ_R if self.side == 'dec' else NONE)]
@@ -743,7 +765,7 @@ class Enum:
             self.depth -= 1
             return [(self.tok(st, ('DEEP',)), self.opq)]
         params = [a.arg for a in f.args.args]
-        if skip_self:
+        if skip_self and not any(isinstance(d, ast.Name) and d.id == 'staticmethod' for d in f.decorator_list):
             params = params[1:]
         cenv = {}
         for p, v in zip(params, pos):
@@ -768,6 +790,8 @@ class Enum:
         for a, d in zip(f.args.kwonlyargs, f.args.kw_defaults):
             cenv[a.arg] = kws.get(a.arg, (CONST, d.value) if isinstance(d, ast.Constant) else self.opq)
         saved = self.defcls
+        if getattr(f, '_cls', None) is None and getattr(f, '_mod', None) is not None and f._mod is not c.mod:
+            c = _ModuleContext(f._mod)       # names inside a module-level helper resolve in the helper's own module
         self.defcls = c
         states = self.block(f.body, [(st[0], cenv, False)])
         self.defcls = saved
